@@ -5,6 +5,8 @@ import XalanModel.C09.Matcher
 namespace XalanModel.C09
 open Spec
 
+variable {v : Variant}
+
 theorem zipIdx_filter_idx {α : Type} (l : List α) (s j : Nat) :
     ((l.zipIdx s).filter (fun p => p.2 == j)).map Prod.fst = if s ≤ j then (l[j - s]?).toList else [] := by
   induction l generalizing s with
@@ -101,7 +103,7 @@ theorem predicates_eq (d : Doc) (ps : List Pred) (l : List Nat) :
 
 
 theorem fwdStep_child_eq (d : Doc) (c : Nat) (s : Step) (fd : Bool) (h : s.attrAxis = false) :
-    fwdStep d c (compileStep s fd) = evalStep d c s := by
+    fwdStep v d c (compileStep s fd) = evalStep d c s := by
   have hf : (fun m => tester d false (MTest.t s.test) m != Score.none) = testOK d false s.test := by
     funext m; exact tester_eq_testOK d s.test m
   cases fd <;> simp [fwdStep, compileStep, evalStep, h, predicates_eq, hf]
@@ -110,7 +112,7 @@ theorem fwdStep_child_eq (d : Doc) (c : Nat) (s : Step) (fd : Bool) (h : s.attrA
 def selfSel (d : Doc) (s : Step) (m : Nat) : Prop := ∃ p, d.parent m = some p ∧ m ∈ evalStep d p s
 
 theorem handleFoundIndex_child (d : Doc) (s : Step) (fd : Bool) (h : s.attrAxis = false) (m : Nat) :
-    handleFoundIndex d (compileStep s fd) m = (if (∃ p, d.parent m = some p ∧ m ∈ evalStep d p s) then Score.other else Score.none) := by
+    handleFoundIndex v d (compileStep s fd) m = (if (∃ p, d.parent m = some p ∧ m ∈ evalStep d p s) then Score.other else Score.none) := by
   unfold handleFoundIndex
   cases hp : d.parent m with
   | none => simp
@@ -131,18 +133,18 @@ def plainTrue (d : Doc) (p : Pred) (m : Nat) : Bool :=
 
 theorem dsp_cons_plain (d : Doc) (s' : MStep) (p : Pred) (ps : List Pred) (m : Nat) (sc : Score)
     (hp : p.plain = true) :
-    doStepPredicate d s' (p :: ps) m sc = if plainTrue d p m then doStepPredicate d s' ps m sc else Score.none := by
+    doStepPredicate v d s' (p :: ps) m sc = if plainTrue d p m then doStepPredicate v d s' ps m sc else Score.none := by
   cases p <;> simp [Pred.plain] at hp <;> simp [doStepPredicate, Pred.usesPos, predVal, plainTrue]
 
 theorem dsp_cons_nonplain (d : Doc) (s' : MStep) (p : Pred) (ps : List Pred) (m : Nat) (sc : Score)
     (hp : p.plain = false) :
-    doStepPredicate d s' (p :: ps) m sc = doStepPredicate d s' ps m (handleFoundIndex d s' m) := by
+    doStepPredicate v d s' (p :: ps) m sc = doStepPredicate v d s' ps m (handleFoundIndex v d s' m) := by
   cases p <;> simp [Pred.plain] at hp <;> simp [doStepPredicate, Pred.usesPos, predVal]
 
 theorem dsp_char (d : Doc) (s' : MStep) (ps : List Pred) (m : Nat) (sc : Score) :
-    doStepPredicate d s' ps m sc =
+    doStepPredicate v d s' ps m sc =
       if ps.any (fun p => p.plain && !plainTrue d p m) then Score.none
-      else if ps.any (fun p => !p.plain) then handleFoundIndex d s' m else sc := by
+      else if ps.any (fun p => !p.plain) then handleFoundIndex v d s' m else sc := by
   induction ps generalizing sc with
   | nil => simp [doStepPredicate]
   | cons p ps ih =>
@@ -248,29 +250,68 @@ theorem tester_ne_none_not_root (d : Doc) (t : Test) (m : Nat) (ht : t ≠ .node
   cases t <;> simp [tester, hk] at h
   exact ht rfl
 
+theorem wf_kind_ne_root {d : Doc} (hwf : d.WF = true) {i : Nat} (hi : i < d.size) (h0 : i ≠ 0) : d.kind i ≠ .root := by
+  have := wf_node hwf hi
+  unfold Doc.wfNode at this
+  rw [if_neg h0] at this
+  simp only [Bool.and_eq_true, bne_iff_ne] at this
+  exact this.1
+
+theorem childTest_compile (d : Doc) (s : Step) (fd : Bool) (m : Nat) :
+    childTest v d (compileStep s fd) m =
+      if v.rootGuard && d.kind m == .root then Score.none else tester d false (.t s.test) m := by
+  unfold childTest
+  have : ((compileStep s fd).code != Code.anyAncPred) = true := by
+    cases fd <;> by_cases h : s.attrAxis = true <;> simp [compileStep, h]
+  have ht : (compileStep s fd).test = .t s.test := rfl
+  rw [this, ht, Bool.and_true]
+
+theorem childTest_ne_none (d : Doc) (s : Step) (fd : Bool) (m : Nat)
+    (h : (childTest v d (compileStep s fd) m != Score.none) = true) :
+    (tester d false (.t s.test) m != Score.none) = true ∧ (v.rootGuard = true → d.kind m ≠ .root) := by
+  rw [childTest_compile] at h
+  by_cases hg : (v.rootGuard && d.kind m == .root) = true
+  · simp [hg] at h
+  · rw [if_neg hg] at h
+    refine ⟨h, fun hr hk => hg ?_⟩
+    simp [hr, hk]
+
+theorem childTest_of_not_root (d : Doc) (s : Step) (fd : Bool) (m : Nat) (hk : d.kind m ≠ .root) :
+    childTest v d (compileStep s fd) m = tester d false (.t s.test) m := by
+  rw [childTest_compile]
+  have : ¬ (v.rootGuard && d.kind m == .root) = true := by simp [hk]
+  rw [if_neg this]
+
 /-- **single step**: on a non-attribute node, the node test followed by `doStepPredicate` (the body of the
 any-ancestor loop; for an immediate-ancestor step the same two calls) succeeds exactly when the node is selected
-by the step evaluated forward from its parent. -/
+by the step evaluated forward from its parent.  Without the root guard (`rootGuard = false`, the code as found)
+a `node()` test needs the node not to be the document node. -/
 theorem anyBody_iff (d : Doc) (hwf : d.WF = true) (s : Step) (fd : Bool) (h : s.attrAxis = false)
-    (m : Nat) (hm : m < d.size) (hk : d.kind m ≠ .attr) (hn : s.test = .node → m ≠ 0) :
-    anyBody d (compileStep s fd) m ≠ .none ↔ selfSel d s m := by
-  have hcs : (compileStep s fd).test = .t s.test := rfl
+    (m : Nat) (hm : m < d.size) (hk : d.kind m ≠ .attr) (hn : v.rootGuard = false → s.test = .node → m ≠ 0) :
+    anyBody v d (compileStep s fd) m ≠ .none ↔ selfSel d s m := by
   have hcp : (compileStep s fd).preds = s.preds := rfl
   have hT := tester_eq_testOK d s.test m
   unfold anyBody
-  simp only [hcs, hcp]
+  simp only [hcp]
   rw [dsp_char, handleFoundIndex_child d s fd h m]
   constructor
   · intro hne
-    by_cases ht : (tester d false (MTest.t s.test) m != Score.none) = true
+    by_cases ht : (childTest v d (compileStep s fd) m != Score.none) = true
     · rw [if_pos ht] at hne
+      obtain ⟨htt, hroot⟩ := childTest_ne_none d s fd m ht
       have hm0 : m ≠ 0 := by
-        by_cases hnode : s.test = .node
-        · exact hn hnode
+        by_cases hg : v.rootGuard = true
         · intro h0
-          have := tester_ne_none_not_root d s.test m hnode (by simpa using ht)
+          have := hroot hg
           rw [h0] at this
           exact this (wf_kind0 hwf)
+        · have hg' : v.rootGuard = false := by simpa using hg
+          by_cases hnode : s.test = .node
+          · exact hn hg' hnode
+          · intro h0
+            have := tester_ne_none_not_root d s.test m hnode (by simpa using htt)
+            rw [h0] at this
+            exact this (wf_kind0 hwf)
       obtain ⟨p, hp⟩ := wf_parent hwf hm0 hm
       by_cases hbad : (s.preds.any fun p => p.plain && !plainTrue d p m) = true
       · rw [if_pos hbad] at hne; exact absurd rfl hne
@@ -297,7 +338,7 @@ theorem anyBody_iff (d : Doc) (hwf : d.WF = true) (s : Step) (fd : Bool) (h : s.
           · rw [h]
             simp only [Bool.false_eq_true, if_false]
             refine List.mem_filter.mpr ⟨Doc.mem_children.mpr ⟨hp, hk⟩, ?_⟩
-            rw [← hT]; exact ht
+            rw [← hT]; exact htt
     · rw [if_neg ht] at hne
       exfalso; apply ht
       simpa using hne
@@ -307,7 +348,10 @@ theorem anyBody_iff (d : Doc) (hwf : d.WF = true) (s : Step) (fd : Bool) (h : s.
     simp only [Bool.false_eq_true, if_false] at hbase
     have htok := (List.mem_filter.mp hbase).2
     rw [← hT] at htok
-    rw [if_pos htok]
+    have hm0 : m ≠ 0 := by
+      intro h0; subst h0; simp [Doc.parent] at hp
+    have hct := childTest_of_not_root (v := v) d s fd m (wf_kind_ne_root hwf hm hm0)
+    rw [hct, if_pos htok]
     have hpl := fold_plainTrue d s.preds _ m hmem
     have hbad : ¬ (s.preds.any fun p => p.plain && !plainTrue d p m) = true := by
       intro hb
@@ -323,11 +367,9 @@ theorem anyBody_iff (d : Doc) (hwf : d.WF = true) (s : Step) (fd : Bool) (h : s.
     · simp
     · simpa using htok
 
-
-
 theorem lpp_single (d : Doc) (s : Step) (h : s.attrAxis = false) (n : Nat) :
-    locationPathPattern d [compileStep s false] n =
-      if d.kind n != .attr then anyBody d (compileStep s false) n else Score.none := by
+    locationPathPattern v d [compileStep s false] n =
+      if d.kind n != .attr then anyBody v d (compileStep s false) n else Score.none := by
   unfold locationPathPattern stepPattern evalStepAt anyBody
   simp only [compileStep, h]
   by_cases hk : (d.kind n != Kind.attr) = true
@@ -366,12 +408,12 @@ theorem selfSel_not_attr (d : Doc) (s : Step) (h : s.attrAxis = false) (n : Nat)
   exact (Doc.mem_children.mp (List.mem_filter.mp hb).1).2
 
 theorem getMatchScoreC_ne_none (d : Doc) (alts : List (List MStep)) (n : Nat) :
-    getMatchScoreC d alts n ≠ .none ↔ ∃ a ∈ alts, locationPathPattern d a n ≠ .none := by
+    getMatchScoreC v d alts n ≠ .none ↔ ∃ a ∈ alts, lpp v d a n ≠ .none := by
   induction alts with
   | nil => simp [getMatchScoreC]
   | cons a as ih =>
     simp only [getMatchScoreC, List.mem_cons, exists_eq_or_imp]
-    by_cases h : locationPathPattern d a n = .none
+    by_cases h : lpp v d a n = .none
     · simp [h, ih]
     · simp [h]
 
